@@ -952,3 +952,41 @@ pub fn narrow_emit_bytes_ok(v: u64, out: &mut Vec<u8>) {
     out.extend_from_slice(&bytes);
     out.push((v & 0xff) as u8);
 }
+
+// ---------------------------------------------------------------------------------------------------------------
+// E-stale witnesses: a snapshot of a self field written back after a call that may have changed the field
+// ---------------------------------------------------------------------------------------------------------------
+pub struct Ring {
+    head: u32,
+    slots: Vec<u32>,
+}
+
+impl Ring {
+    fn ring_drop_head(&mut self) {
+        self.head = self.slots[self.head as usize];
+    }
+
+    fn ring_unlink(&mut self, i: u32) {
+        if self.head == i {
+            self.head = 0;
+        }
+    }
+
+    pub fn stale_link_bad(&mut self, v: u32) {
+        let old = self.head;
+        self.ring_drop_head();
+        self.slots[v as usize] = old;
+    }
+
+    pub fn stale_known_ok(&mut self) {
+        let old = self.head;
+        self.ring_unlink(old);
+        self.slots[old as usize] = 0;
+    }
+
+    pub fn stale_fresh_ok(&mut self, v: u32) {
+        self.ring_drop_head();
+        let h = self.head;
+        self.slots[v as usize] = h;
+    }
+}
